@@ -1,4 +1,4 @@
-from specs.common import run, ASSUME_COMMON
+from specs.common import run, memcheck, ASSUME_COMMON
 
 ALTS = ["bool", "int32", "int64", "uint32", "double", "cstring", "string_view", "span<bool>", "span<int32>",
         "span<int64>", "span<uint32>", "span<double>", "span<string_view>", "uint64", "span<uint64>", "span<uint8>"]
@@ -34,6 +34,7 @@ SPEC = {
     "runs": [
         run("e1-model", "c13_log_export", "asan", 3000, 150000, params={"mode": "seq", "kill": "scribble"}),
         run("e1-free", "c13_log_export", "asan", 600, 30000, params={"mode": "seq", "kill": "free"}),
+        memcheck("c13_log_export", 300, 15000, params={"mode": "seq", "kill": "scribble"}),
         run("e2-threads", "c13_log_export", "tsan", 400, 12000, params={"mode": "mt"}),
     ],
     "floors": {
